@@ -57,6 +57,9 @@ pub enum Mop {
     Panic,
     /// Emit an op into a foreign instance.
     ForeignSetNodeAtt { warp: WarpId, node: NodeId },
+    /// Declare a boundary port (`b_in` / `b_out`) in the footprint. No graph
+    /// effect: ports only take part in admission.
+    ClaimPort { port: u64, out: bool },
 }
 
 #[derive(Clone, Debug)]
@@ -259,6 +262,7 @@ pub fn eval<R: Reader>(p: &Program, r: &R) -> (Vec<Effect>, bool) {
                 root_ty: *root_ty,
             }),
             Mop::Panic => return (out, true),
+            Mop::ClaimPort { .. } => {}
             Mop::ForeignSetNodeAtt { warp, node } => {
                 let d = acc.digest(which);
                 out.push(Effect::SetNAtt(*warp, *node, Some(AVal::Atom(make_type_id("verif/foreign"), d.to_vec()))));
@@ -383,6 +387,13 @@ impl Program {
                 }
                 Mop::OpenPortalEdge { edge, .. } => {
                     fp.a_write.insert(AttachmentKey::edge_beta(ek(edge)));
+                }
+                Mop::ClaimPort { port, out } => {
+                    if *out {
+                        fp.b_out.insert(w, *port);
+                    } else {
+                        fp.b_in.insert(w, *port);
+                    }
                 }
                 Mop::Panic | Mop::ForeignSetNodeAtt { .. } => {}
             }
